@@ -27,7 +27,7 @@ def queries(ctx):
     ne = 3 if thorough else 2
     cap = ne * 24 + 8
     qs.append(Q(name="template_%del_allnames" % ne, harness="C07_chain.c", units=units(cap + 8), defines=("NELEM=%d" % ne, "V_STR_CAP=8"), unwind=24,
-                unwindset=("snoopy_filtering_check_chain.0:%d" % (ne + 2), "strncpy.0:%d" % (cap + 10), "strlen.0:%d" % (cap + 2), "strtok_r.0:%d" % (cap + 2)),
+                unwindset=("snoopy_filtering_check_chain.0:%d" % (ne + 2), "strncpy.0:%d" % (cap + 10), "strlen.0:%d" % (cap + 2), "strtok_r.0:%d" % (cap + 2), "v_format.2:%d" % (cap + 10)),
                 flags=("--object-bits", "10"), timeout=3400 if thorough else 900, mem_gb=10,
                 bounds="chain = ';' + %d fixed-width slots padded with ';' (+ optional trailing ';'): each slot absent or an element from {noop, only_root, only_uid, exclude_uid, only_tty, exclude_spawns_of, unknown 'bogus', empty name} x {no arg, ':'+0..2 symbolic bytes}; symbolic verdict table" % ne))
     if thorough:
